@@ -102,6 +102,8 @@ func (c *connection) writeFrame(ctx context.Context, e *epoch, msg Message) erro
 	// socket outside its writeMu (relying only on the OS writev lock for byte integrity).
 	conn := e.liveConn()
 
+	vgate("write.locked")
+
 	// Test seam (nil in production): allows the B2 teeth-test to simulate a Selected→NotSelected
 	// transition — and the I1 teeth-test a teardown+reconnect — that lands after writeMu is acquired
 	// but before the write, the only window that cannot be exercised without a seam. It runs AFTER
